@@ -127,6 +127,7 @@ fn watchdog_loop() {
             let _ = std::fs::write(format!("{}/evidence/{}.json", vd, prop), serde_json::to_string_pretty(&ev).unwrap());
             eprintln!("  violation clause=step-does-not-return: {}", label);
             println!("VIOLATION property={} replay={}", prop, path);
+            crate::proc::kill_registered_children();
             std::process::exit(1);
         }
     }
